@@ -37,6 +37,8 @@ func c17Sequential(c *Ctx, idx int) {
 	r := c.R
 	dir, _ := os.MkdirTemp("", "c17seq")
 	defer os.RemoveAll(dir)
+	linkTargets, _ := os.MkdirTemp("", "c17tgt")
+	defer os.RemoveAll(linkTargets)
 	conf := &fswallet.Config{Path: dir, SignerCacheSize: "1MB", SignerCacheTTL: "1h", DisableListener: true}
 	conf.Filenames.PrimaryExt = ".key.json"
 	conf.Metadata.Format = "none"
@@ -82,8 +84,24 @@ func c17Sequential(c *Ctx, idx int) {
 				a = created[r.Intn(len(created))]
 			}
 			name := Pick(r, []string{a + ".key.json", a + ".key.json", "0x" + a + ".key.json", strings.ToUpper(a) + ".key.json", "0x" + strings.ToUpper(a) + ".key.json", a + ".txt", a, a[:38] + ".key.json", "README.md"})
-			_ = os.WriteFile(path.Join(dir, name), []byte("{}"), 0o600)
-			if strings.HasSuffix(name, ".key.json") && len(name) >= 49 {
+			switch r.Intn(8) {
+			case 0: // the key file is a symbolic link to a file kept elsewhere (a mounted secret): it counts
+				target := path.Join(linkTargets, fmt.Sprintf("t%d", i))
+				_ = os.WriteFile(target, []byte("{}"), 0o600)
+				_ = os.Remove(path.Join(dir, name))
+				_ = os.Symlink(target, path.Join(dir, name))
+				c.Tags["seq.symlink"]++
+			case 1: // a sub-directory whose name matches the rule: never an account
+				if _, err := os.Lstat(path.Join(dir, name)); err != nil {
+					_ = os.Mkdir(path.Join(dir, name), 0o700)
+					c.Tags["seq.subdir"]++
+					continue
+				}
+				_ = os.WriteFile(path.Join(dir, name), []byte("{}"), 0o600)
+			default:
+				_ = os.WriteFile(path.Join(dir, name), []byte("{}"), 0o600)
+			}
+			if fi, err := os.Stat(path.Join(dir, name)); err == nil && !fi.IsDir() && strings.HasSuffix(name, ".key.json") && len(name) >= 49 {
 				created = append(created, a)
 			}
 		case 2:
@@ -104,6 +122,10 @@ func c17Sequential(c *Ctx, idx int) {
 			var files []any
 			for _, e := range entries {
 				nm := e.Name()
+				if fi, err := os.Stat(path.Join(dir, nm)); err != nil || fi.IsDir() { // what the naming rule is applied to: files
+					files = append(files, []any{nm, nil})
+					continue
+				}
 				if strings.HasSuffix(nm, ".key.json") {
 					h := strings.TrimPrefix(strings.TrimSuffix(nm, ".key.json"), "0x")
 					if len(h) == 40 && isHexStr(strings.ToLower(h)) {
@@ -748,6 +770,43 @@ func init() {
 			// sequential: the model's account list, per-listener sequences and GetAccounts snapshots
 			if !same(normJ(req["implKnown"]), normJ(orc["known"])) && !(req["implKnown"] == nil && len(normList(orc["known"])) == 0) {
 				fs = append(fs, Finding{Kind: "mismatch", Region: "fswc.known", Detail: "account list differs from model: impl=" + canon(req["implKnown"]) + " model=" + canon(orc["known"])})
+			}
+			// Tier A, straight from the property: the account list has no duplicates and, after the last discovery pass,
+			// is exactly the set of addresses some matching file was seen for
+			{
+				want := map[string]bool{}
+				var ops []map[string]any
+				if ob, err := json.Marshal(req["ops"]); err == nil {
+					_ = json.Unmarshal(ob, &ops)
+				}
+				for _, om := range ops {
+					if om["t"] != "notify" {
+						continue
+					}
+					fl, _ := om["files"].([]any)
+					for _, f := range fl {
+						if pr, _ := f.([]any); len(pr) == 2 && pr[1] != nil {
+							want[fmt.Sprint(pr[1])] = true
+						}
+					}
+				}
+				got := map[string]int{}
+				for _, a := range normList(req["implKnown"]) {
+					got[fmt.Sprint(a)]++
+				}
+				for a, n := range got {
+					if n > 1 {
+						fs = append(fs, Finding{Kind: "violation", Region: "fsw.accounts.dup", Detail: "address #" + a + " is in the account list " + fmt.Sprint(n) + " times"})
+					}
+					if !want[a] {
+						fs = append(fs, Finding{Kind: "violation", Region: "fsw.accounts.extra", Detail: "address #" + a + " is listed but no matching file was ever seen for it"})
+					}
+				}
+				for a := range want {
+					if got[a] == 0 {
+						fs = append(fs, Finding{Kind: "violation", Region: "fsw.accounts.converge", Detail: "a matching file for address #" + a + " was present at a discovery pass but the address is not in the account list"})
+					}
+				}
 			}
 			md, _ := orc["delivered"].(map[string]any)
 			id, _ := req["implDelivered"].(map[string]any)
